@@ -397,6 +397,19 @@ fn decode_case(c: &J) -> J {
         src.extend_from_slice(&b);
         let r = match catch_unwind(AssertUnwindSafe(|| (fe2o3_amqp::frames::sasl::FrameCodec {}).decode(&mut src))) { Ok(Ok(_)) => "ok", Ok(Err(_)) => "err", Err(_) => "panic" };
         push((r, "na"));
+        // the same body behind every other kind of frame header: data offsets 0, 1, 3, 64, 255, and the input itself taken as the whole frame
+        let mut worst = "err";
+        for hdr in [Some([0u8, 0, 0, 0]), Some([1, 0, 0, 0]), Some([3, 0, 0, 0]), Some([64, 0, 0, 0]), Some([255, 0, 0, 0]), Some([3, 1, 0, 0]), Some([255, 1, 0, 0]), None] {
+            for sasl in [false, true] {
+                let mut src = bytes::BytesMut::with_capacity(b.len() + 4);
+                if let Some(h) = hdr { if sasl != (h[1] == 1) { continue; } src.extend_from_slice(&h); }
+                src.extend_from_slice(&b);
+                let r = if sasl { match catch_unwind(AssertUnwindSafe(|| (fe2o3_amqp::frames::sasl::FrameCodec {}).decode(&mut src))) { Ok(Ok(_)) => "ok", Ok(Err(_)) => "err", Err(_) => "panic" } }
+                        else { match catch_unwind(AssertUnwindSafe(|| (fe2o3_amqp::frames::amqp::FrameDecoder {}).decode(&mut src))) { Ok(Ok(_)) => "ok", Ok(Err(_)) => "err", Err(_) => "panic" } };
+                if r == "panic" { worst = "panic"; } else if r == "ok" && worst != "panic" { worst = "ok"; }
+            }
+        }
+        push((worst, "na"));
     }
     let cpu_ms = (mon::thread_cpu_ns() - t0) / 1_000_000;
     let peak_kb = mon::alloc_peak_since(mark) / 1024;
